@@ -557,7 +557,7 @@ def replay(ob):
     real CLI; they must print the same value.  Fixed witnesses (`-2 <op> 3` for every operator documented
     tighter than unary minus) are tried as well."""
     if ob.id != "C31.prec.prefix_minus.uniform":
-        return None, dict(note="no CLI replay for this obligation (tree-level contract)")
+        return table_replay(ob)
     info = {}
     cands = []
     # the enumerator's first differing token strings are in ob.detail ("Minus IntLit Mod IntLit: tree differs ...")
@@ -588,3 +588,46 @@ def replay(ob):
             confirmed = False
     info['tried'] = tried
     return confirmed, info
+
+
+def table_replay(ob):
+    """Table / Pratt-loop obligations: evaluate `a op1 b op2 c` for every pair of integer arithmetic
+    operators on the real CLI (operands held in variables) and compare with the value of the tree
+    the DOCUMENTED table prescribes (higher level binds tighter, equal levels associate left)."""
+    binl, prel, postl, _ = doc_levels()
+    ops = [o for o in ['+', '-', '*', '/', '%', '^'] if o in binl]
+
+    def ev(op, x, y):
+        if op == '+': return x + y
+        if op == '-': return x - y
+        if op == '*': return x * y
+        if op == '/': return None if y == 0 else abs(x) // abs(y) * (1 if (x >= 0) == (y >= 0) else -1)
+        if op == '%': return None if y == 0 else x % abs(y)
+        if op == '^': return None if (y < 0 or y > 20) else x ** y
+    vals = [(7, 5, 3), (20, 6, 4), (2, 3, 2), (9, 2, 5)]
+    lines, want, exprs = ["fn f(a: int, b: int, c: int, k: int) -> int {"], [], []
+    k = 0
+    body = []
+    for o1 in ops:
+        for o2 in ops:
+            body.append("    if k == %d { return a %s b %s c }" % (k, o1, o2))
+            for (a, b, c) in vals:
+                if binl[o1] >= binl[o2]:
+                    l = ev(o1, a, b)
+                    r = None if l is None else ev(o2, l, c)
+                else:
+                    rr = ev(o2, b, c)
+                    r = None if rr is None else ev(o1, a, rr)
+                if r is None or abs(r) >= (1 << 62):
+                    continue
+                exprs.append(("%d %s %d %s %d" % (a, o1, b, o2, c), "println(f(%d, %d, %d, %d))" % (a, b, c, k), str(r)))
+            k += 1
+    prog = "\n".join(lines + body + ["    0", "}"] + [e[1] for e in exprs]) + "\n"
+    out, err, rc = abra_cli.run_program(prog, timeout=120)
+    got = out.strip().split("\n")
+    for i, (expr, _, w) in enumerate(exprs):
+        g = got[i] if i < len(got) else "<missing: %s>" % err.strip().split("\n")[0][:150]
+        if g != w:
+            ob.cex = dict(expression=expr)
+            return True, dict(expression=expr + "   (operands in variables)", real_output=g, expected_by_documented_table=w)
+    return None, dict(note="all %d two-operator expressions evaluate as the documented table prescribes on the real CLI" % len(exprs))
